@@ -173,6 +173,16 @@ def directed(flavour, quick=False, packs_only=False):
                         if len(S) % 4 == 0:
                             s += bs.pack(0)
                         S.append(s)
+    # a consumeFile that fails (no such source) after the blob was written in the transaction, on a clean blob, on a
+    # new blob, across a savepoint: the call must leave the blob as it was, whatever the commit does afterwards
+    for end in ENDS:
+        for pre in (bs.rewrite(2, 'b'), bs.append(2, 'b'), bs.consume(2, 'b'), bs.rewrite(2, 'b') + bs.append(2, 'a'), []):
+            S.append(first + pre + bs.consume_fail(2) + bs.commit(end) + bs.append(2, 'a') + bs.commit())
+            S.append(first + pre + bs.consume_fail(2) + bs.append(2, 'a') + bs.consume_fail(2) + bs.modify_p('v2') + bs.commit(end))
+        S.append(first + bs.create(('b',)) + bs.consume_fail(3) + bs.commit(end) + bs.append(3, 'a') + bs.commit())
+        S.append(first + bs.create(()) + bs.append(3, 'a') + bs.consume_fail(3) + bs.append(3, 'b') + bs.commit(end) + bs.commit())
+        S.append(first + bs.rewrite(2, 'b') + bs.savepoint() + bs.consume_fail(2) + bs.append(2, 'a') + bs.consume_fail(2) + bs.commit(end))
+        S.append(first + bs.rewrite(2, 'b') + bs.savepoint() + bs.append(2, 'a') + bs.consume_fail(2) + bs.rollback(1) + bs.consume_fail(2) + bs.commit(end))
     # savepoints: rollbacks to every savepoint, twice, new blobs created and un-created, then every end
     for end in ENDS:
         for k in (1, 2):
@@ -219,8 +229,10 @@ def random_script(rng, flavour, nblob):
             return bs.rewrite(b, rng.choice(X))
         if r < 0.64:
             return bs.append(b, rng.choice(X))
-        if r < 0.80:
+        if r < 0.78:
             return bs.consume(b, rng.choice(X))
+        if r < 0.86:
+            return bs.consume_fail(b)
         return bs.modify_p(rng.choice(('v1', 'v2')))
     s += bs.create(rng.choice((('a',), ('b',)))) + bs.commit()
     for _ in range(rng.randint(2, 4)):
@@ -267,6 +279,8 @@ def to_script(sig):
             out.append({'a': name, 'b': int(args[0]), 'c': tuple(x for x in c.split(',') if x)})
         elif name in ('Rewrite', 'Append', 'ConsumeFile'):
             out.append({'a': name, 'b': int(args[0]), 'x': args[1]})
+        elif name == 'ConsumeFail':
+            out.append({'a': name, 'b': int(args[0])})
         elif name == 'ModifyP':
             out.append({'a': name, 'v': args[0]})
         elif name == 'Rollback':
